@@ -73,15 +73,18 @@ def project_struct(text, it):
     ob = m.index('{')
     cb = rustlex.match_brace(m, ob)
     body = text[ob + 1:cb]
-    keep = it['project_fields']
+    keep = it.get('project_fields', [])
+    drop = it.get('drop_fields')
     kept, dropped = [], []
     for ln in body.split('\n'):
         mm = re.match(r'\s*(pub(\([^)]*\))?\s+)?(\w+)\s*:', ln)
         if not mm:
-            if ln.strip():
+            if ln.strip() and not ln.strip().startswith('//'):
                 raise Unsupported(f'struct {it["name"]}: cannot parse field line {ln!r}')
             continue
-        (kept if mm.group(3) in keep else dropped).append(ln if mm.group(3) in keep else mm.group(3))
+        # `drop_fields`: everything not listed is kept, so a field added to the struct later stays visible to the proof
+        is_kept = (mm.group(3) not in drop) if drop is not None else (mm.group(3) in keep)
+        (kept if is_kept else dropped).append(ln if is_kept else mm.group(3))
     missing = [k for k in keep if not any(re.match(r'\s*(pub(\([^)]*\))?\s+)?' + k + r'\s*:', x) for x in kept)]
     if missing:
         raise AnchorLost(f'struct {it["name"]}: fields not found: {missing}')
@@ -363,7 +366,7 @@ def build_unit(unit_path, out_path, probe=False):
             info['rewrites'].append({'fn': it['name'], 'op': 'replace', 'why': 'R1 trait-parameter collapse', 'before': R1_BOUND.search(text).group(0), 'after': 'EbmlSpecification'})
             text = R1_BOUND.sub('EbmlSpecification', text)
         keep_attrs = [] if it.get('drop_attrs') else [a.strip() for a in attrs if a.strip().startswith('#[derive')]
-        if it.get('project_fields'):
+        if it.get('project_fields') or it.get('drop_fields') is not None:
             text, dropped = project_struct(text, it)
             info['rewrites'].append({'fn': it['name'], 'op': 'R5 struct projection', 'why': 'fields not touched by any function of the unit are dropped (checked mechanically below); generic parameters of dropped fields removed', 'dropped_fields': dropped, 'after': text})
             info.setdefault('dropped_fields', []).extend(dropped)
